@@ -1,4 +1,4 @@
-//go:build verif
+//go:build verif && (c10 || allprops)
 
 package main
 
